@@ -232,6 +232,7 @@ def run(prog, chk):
         "glyph copies only use the UFO glyph protocol (library-agnostic) (R08.6)",
         "feature writer objects keep no per-font state outside the per-call self.context; memoising decorators only on reviewed per-compile classes (R08.7)",
         "filter objects keep no state outside the per-call self.context: a filter object reused for another font gives what a fresh one gives (R08.8, shared with C14)",
+        "what getAttrWithFallback returns (the font's own info value, or the package-wide default object) is never modified in place: a compile does not change what the next compile of the same font - or of any other font - reads (R08.9, shared with C16)",
     ]
     chk.not_decided += ["byte identity itself", "behavioural differences between defcon and ufoLib2", "ordering of dict-typed UFO containers (treated as content)"]
     chk.assumptions += ["glyph-class literals and sets handed to fontTools as sets are order-neutral sinks (coverage / class tables are sorted by glyph id)",
@@ -245,6 +246,8 @@ def run(prog, chk):
     chk.guard(r087, prog, chk)
     from .c14 import check_no_filter_state
     chk.guard(check_no_filter_state, prog, chk, "R08.8")
+    from .c16 import r167
+    chk.guard(r167, prog, chk, "R08.9")
 
 
 # ----------------------------------------------------------------------------- R08.1
@@ -793,6 +796,8 @@ def r087(prog, chk, rule="R08.7"):
 
 
 MUTANTS = [
+    M("BlueScale fallback appends OtherBlues to the font's own BlueValues (seeded C08g)", "ufo2ft/fontInfoData.py", "postscriptBlueScaleFallback",
+      "blues = getAttrWithFallback(info, 'postscriptBlueValues')", "blues = getAttrWithFallback(info, 'postscriptBlueValues')\nblues += getAttrWithFallback(info, 'postscriptOtherBlues')", rule="R08.9"),
     M("transformations filter caches its matrix on the instance (seeded C08e / C15c)", "ufo2ft/filters/transformations.py", "TransformationsFilter.set_context",
       "ctx.matrix = m", "if getattr(self, '_matrix', None) is None:\n    self._matrix = m\nctx.matrix = self._matrix", rule="R08.8"),
     M("kerning bucket keys built in set order (mutation scan survivor)", "ufo2ft/featureWriters/kernFeatureWriter.py", "splitKerning",
